@@ -41,7 +41,10 @@ def confirm(agent_wt, prop, name):
         if rc != 0:
             rep["apply_error"] = out[-500:]
             return rep
-        shutil.copytree(seed, os.path.join(wt, "seed"))
+        # (build directories the agent left inside seed/ carry absolute paths of its worktree: not copied)
+        shutil.copytree(seed, os.path.join(wt, "seed"),
+                        ignore=lambda d, names: [n for n in names if os.path.isdir(os.path.join(d, n))
+                                                 and (n.startswith("_") or n.startswith(".") or n in ("tmp", "build"))])
         rc, out = sh("cmake -G Ninja -B _build -DCMAKE_BUILD_TYPE=Release . > /dev/null && cmake --build _build 2>&1 | tail -2", cwd=wt)
         rep["baseline_builds"] = rc == 0
         # demonstration on the unchanged tree
